@@ -424,4 +424,58 @@ theorem tipHash_append (l r : List Block) :
     | none => simp at h
     | some y => simp
 
+/-! ### stale pre-lock reads of `number` (round 6) -/
+
+theorem freeze_eq_freezeFrom (c : Cfg) (s : Top) (thr : Nat) (get : Nat → Option Block)
+    (stopped : Nat → Bool) : freeze c s thr get stopped = freezeFrom c s s.h.number thr get stopped := rfl
+
+theorem truncateTop_eq_truncateFrom (c : Cfg) (s : Top) (item : Nat) :
+    truncateTop c s item = truncateFrom c s s.h.number item := rfl
+
+/-- a `freeze` that starts from a stale `n0 ≠ number` changes nothing: its first iteration ends the
+    call — `Ok` with an empty map (loop empty, stop flag, block missing) or `Err` (the parent-hash
+    test, else `append`'s "unexpected number" test) -/
+theorem freezeFrom_stale (c : Cfg) (s : Top) (n0 thr : Nat) (get : Nat → Option Block)
+    (stopped : Nat → Bool) (hne : n0 ≠ s.h.number) :
+    (freezeFrom c s n0 thr get stopped).1 = s ∧
+    ((freezeFrom c s n0 thr get stopped).2 = .err ↔
+      n0 < thr ∧ stopped n0 = false ∧ (get n0).isSome = true) ∧
+    ((freezeFrom c s n0 thr get stopped).2 ≠ .err → (freezeFrom c s n0 thr get stopped).2 = .ok []) := by
+  unfold freezeFrom
+  cases hf : thr - n0 with
+  | zero =>
+    simp only [freezeLoop]
+    refine ⟨trivial, ?_, fun _ => trivial⟩
+    constructor
+    · intro h; cases h
+    · intro h; omega
+  | succ fuel =>
+    have hlt : n0 < thr := by omega
+    unfold freezeLoop
+    by_cases hs : stopped n0 = true
+    · simp [hs]
+    · have hs' : stopped n0 = false := by simpa using hs
+      simp only [hs', Bool.false_eq_true, if_false]
+      cases hg : get n0 with
+      | none => simp
+      | some b =>
+        simp only
+        by_cases hm : mismatch (Option.map (fun x => x.hash) s.tip) b = true
+        · simp [hm, hlt]
+        · have hn : s.h.number ≠ n0 := fun h => hne h.symm
+          simp [hm, hn, hlt]
+
+/-- `truncate` whose guard read a stale `n0 ≤ number` (only freezes ran in between — `number` never
+    shrinks under a freeze): it never fails, and either truncates exactly as an un-raced call or
+    (guard false on the stale value) does nothing -/
+theorem truncateFrom_stale_low (c : Cfg) (s : Top) (n0 k : Nat) (hle : n0 ≤ s.h.number) :
+    (truncateFrom c s n0 k = truncateTop c s k) ∨ (truncateFrom c s n0 k = some s) := by
+  unfold truncateFrom truncateTop
+  by_cases hg : k > 0 ∧ k + 1 < n0
+  · left
+    have hg' : k > 0 ∧ k + 1 < s.h.number := by omega
+    rw [if_pos hg, if_pos hg']
+  · right
+    rw [if_neg hg]
+
 end CkbVerif.FreezerTop
